@@ -75,6 +75,8 @@ class ListenSock(_Base):
         if not self.pending:
             raise _err(errno.EWOULDBLOCK)
         c = self.pending.pop(0)
+        # a connection the peer has reset while it sat in the backlog is still handed out; it is no longer connected
+        c.rst_before_accept = c.peer_rst
         return c, c.peer
 
     def listen(self, n):
@@ -100,6 +102,7 @@ class ConnSock(_Base):
         self.send_after_close = 0
         self.shutdown_called = False
         self.recv_calls = 0
+        self.rst_before_accept = False
 
     # -- peer script ---------------------------------------------------------
     def peer_send(self, data):
@@ -169,6 +172,8 @@ class ConnSock(_Base):
     def getpeername(self):
         if self.closed:
             raise _err(errno.EBADF)
+        if self.rst_before_accept:
+            raise _err(errno.ENOTCONN)
         return self.peer
 
 
